@@ -127,6 +127,53 @@ impl<'a> Session<'a> {
             Err(msg) => self.panic_event(&format!("{}([{}])", op, list.join(",")), &msg),
         }
     }
+    pub fn mask(&self) -> u32 {
+        self.q.as_ref().map(mask_of).unwrap_or(0)
+    }
+    /// n repetitions of a call pattern, run-length compressed (see midi::Session::repeat)
+    pub fn repeat(&mut self, n: usize, head: usize, mut f: impl FnMut(&mut Self)) {
+        let mut i = 0;
+        while i < n.min(head) {
+            f(self);
+            i += 1;
+        }
+        if i >= n || !self.alive {
+            return;
+        }
+        self.out.line("{\"op\":\"mark\"}");
+        self.out.begin_capture();
+        f(self);
+        let pat = self.out.end_capture();
+        self.out.emit_all(&pat);
+        i += 1;
+        self.repeat_like(&pat, n - i, f);
+    }
+    fn repeat_like(&mut self, pat: &[String], n: usize, mut f: impl FnMut(&mut Self)) {
+        let mut same = 0u64;
+        let mut i = 0;
+        while i < n {
+            self.out.begin_capture();
+            f(self);
+            let cur = self.out.end_capture();
+            i += 1;
+            if cur == pat {
+                same += 1;
+            } else {
+                if same > 0 {
+                    self.out.line(&format!("{{\"op\":\"rep\",\"n\":{}}}", same));
+                    same = 0;
+                }
+                self.out.emit_all(&cur);
+                while i < n {
+                    f(self);
+                    i += 1;
+                }
+            }
+        }
+        if same > 0 {
+            self.out.line(&format!("{{\"op\":\"rep\",\"n\":{}}}", same));
+        }
+    }
     pub fn allow(&mut self, ns: &[u8]) {
         self.edit("al", ns)
     }
@@ -584,9 +631,107 @@ pub fn drive_hyst(s: &mut Session, rng: &mut Rng, thorough: bool) {
     }
 }
 
-pub fn rerun(lines: &[serde_json::Value], out: &mut Out) {
-    let mut s = Session::new(out);
-    for e in lines {
+/// histories aimed at shortcuts an implementation might take: memo keys mixing the input bits with the
+/// scale, argument lists longer than an octave, edit counters that wrap, extreme first inputs
+pub fn drive_shortcuts(s: &mut Session, rng: &mut Rng, thorough: bool) {
+    let semi = 1.0f64 / 12.0;
+    // (a) after a scale edit the next input differs from the previous one exactly by a combination of the
+    //     old and the new scale word (any (input, scale) hash that collides then returns a stale note)
+    for _ in 0..(if thorough { 400 } else { 80 }) {
+        s.start();
+        random_scale_edit(s, rng);
+        for _ in 0..12 {
+            let v = (rng.below(121) as f64 * semi + rng.unit() * semi) as f32;
+            let n = s.convert(v).unwrap_or(0);
+            let m0 = s.mask();
+            match rng.below(3) {
+                0 => s.forbid(&[n % 12]),
+                1 => random_scale_edit(s, rng),
+                _ => s.forbid(&[n % 12, (n + 1) % 12]),
+            }
+            let m1 = s.mask();
+            let b = v.to_bits();
+            let cands = [b ^ (m0 ^ m1), b ^ m1, b ^ m0, b.wrapping_add(m1).wrapping_sub(m0), b.wrapping_add(m0).wrapping_sub(m1),
+                         b ^ ((m0 ^ m1) << 12), b ^ ((m0 ^ m1) << 20)];
+            let w = f32::from_bits(cands[rng.below(cands.len() as u64) as usize]);
+            if w.is_finite() && w > -1.0 && w < 11.0 {
+                s.convert(w);
+            }
+            s.convert(f32::from_bits(b ^ (m0 ^ m1)));
+        }
+    }
+    // (b) argument lists longer than an octave: repeats first, the decisive notes late in the list
+    for _ in 0..(if thorough { 200 } else { 50 }) {
+        s.start();
+        let len = 13 + rng.below(30) as usize;
+        let few: Vec<u8> = (0..(1 + rng.below(4))).map(|_| rng.below(12) as u8).collect();
+        let mut ns: Vec<u8> = (0..len).map(|_| *rng.pick(&few)).collect();
+        let late = 12 + rng.below((len - 12) as u64) as usize;
+        for k in late..len {
+            ns[k] = rng.below(12) as u8;
+        }
+        if rng.chance(1, 2) {
+            s.forbid(&ns);
+        } else {
+            s.forbid(&[0, 1, 2, 3, 4, 5, 6, 7, 8, 9, 10, 11]);
+            s.allow(&ns);
+        }
+        for _ in 0..10 {
+            let k = ns[late + rng.below((len - late) as u64) as usize] as f64;
+            let oct = rng.below(10) as f64;
+            s.convert((oct + k * semi + (rng.unit() - 0.3) * semi) as f32);
+        }
+    }
+    // (c) exactly 2^16 (and 2^8, 2^16 + 2^8) scale edits between two conversions of the same input, the net
+    //     effect of which moves the nearest allowed note
+    for variant in 0..6 {
+        s.start();
+        let oct = rng.below(10) as f64;
+        let v = (oct + 2.0 * semi + (rng.unit() - 0.5) * 0.5 * semi) as f32; // near D
+        let reps = match variant % 3 { 0 => 32768usize, 1 => 128, _ => 32768 + 128 };
+        if variant < 3 {
+            // every call counted: (forbid D, allow D) x reps, D ends up allowed
+            s.forbid(&[1, 2, 3, 5, 6, 7, 8, 9, 10, 11]); // {C, E}
+            s.convert(v);
+            s.repeat(reps, 2, |s| {
+                s.forbid(&[2]);
+                s.allow(&[2]);
+            });
+        } else {
+            // only effective changes counted: 2 * reps - 1 toggles of D, then F
+            s.forbid(&[1, 3, 5, 6, 7, 8, 9, 10, 11]); // {C, D, E}
+            s.convert(v);
+            s.forbid(&[2]);
+            s.repeat(reps - 1, 2, |s| {
+                s.allow(&[2]);
+                s.forbid(&[2]);
+            });
+            s.allow(&[3]);
+        }
+        s.convert(v);
+        s.convert(v);
+    }
+    // (d) extreme and non-finite values as the very first input of a quantizer, with and without C
+    for path in 0..4u32 {
+        for &x in &[f32::MIN, f32::MAX, f32::INFINITY, f32::NEG_INFINITY, f32::NAN, -0.0f32, 0.0, f32::MIN_POSITIVE, -1e-45, 1e-45,
+                    -f32::MIN_POSITIVE, 10.0, 1e30, -1e30] {
+            s.start();
+            match path {
+                0 => {}
+                1 => s.forbid(&[0]),
+                2 => s.forbid(&[1, 2, 3, 4, 5, 6, 7, 8, 9, 10, 11]),
+                _ => random_scale_edit(s, rng),
+            }
+            s.convert(x);
+            s.convert(x);
+            s.convert((rng.unit() * 10.0) as f32);
+            s.convert(x);
+        }
+    }
+}
+
+fn rerun_one(s: &mut Session, e: &serde_json::Value) {
+    {
         match e["op"].as_str().unwrap_or("") {
             "new" => s.start(),
             "al" | "fb" => {
@@ -626,6 +771,36 @@ pub fn rerun(lines: &[serde_json::Value], out: &mut Out) {
     }
 }
 
+pub fn rerun(lines: &[serde_json::Value], out: &mut Out) {
+    let mut s = Session::new(out);
+    let mut mark: Option<usize> = None;
+    for (i, e) in lines.iter().enumerate() {
+        match e["op"].as_str().unwrap_or("") {
+            "mark" => {
+                s.out.line("{\"op\":\"mark\"}");
+                s.out.begin_capture();
+                mark = Some(i);
+            }
+            "rep" => {
+                let pat_out = s.out.end_capture();
+                s.out.emit_all(&pat_out);
+                if let Some(m) = mark.take() {
+                    let pat: Vec<&serde_json::Value> = lines[m + 1..i].iter().collect();
+                    let n = e["n"].as_u64().unwrap() as usize;
+                    s.repeat_like(&pat_out, n, |s| {
+                        for x in &pat {
+                            rerun_one(s, x);
+                        }
+                    });
+                }
+            }
+            _ => rerun_one(&mut s, e),
+        }
+    }
+    let rest = s.out.end_capture();
+    s.out.emit_all(&rest);
+}
+
 pub fn record(driver: &str, seed: u64, thorough: bool, out: &mut Out) -> Stats {
     let mut rng = Rng::new(seed ^ 0x7175_616e);
     let mut s = Session::new(out);
@@ -638,6 +813,7 @@ pub fn record(driver: &str, seed: u64, thorough: bool, out: &mut Out) -> Stats {
         "hyst" => {
             drive_hyst(&mut s, &mut rng, thorough);
             drive_margins(&mut s, &mut rng, thorough);
+            drive_shortcuts(&mut s, &mut rng, thorough);
         }
         "boundaries" => drive_boundaries(&mut s, &mut rng, thorough),
         _ => {
